@@ -466,7 +466,39 @@ def dump_tree(expr):
             return {"k": "star", "i": nid(e), "e": seq(e.path_element.seq)}
         raise TypeError(t.__name__)
 
-    return {"top": [path(p) for p in expr.seq.paths], "m": bool(expr.importURI), "p": bool(expr.use_proxy)}
+    return {"top": [path(p) for p in expr.seq.paths], "m": bool(expr.importURI), "p": bool(expr.use_proxy),
+            "surface": dump_surface(expr)}
+
+
+def dump_surface(expr):
+    """the same RRELExpression as a plain object tree (classes, names, flags — no node identities; wire form of
+    Drivers/RrelSyntax.lean).  The Lean driver maps it to the core calculus itself (`RrelSyntax.toCore`, the map
+    the theorems `C11_*_tree` / `C12_eval_find` are about) and reports whether that equals the dumped core,
+    node identities included."""
+    use_repo()
+    from textx.scoping import rrel as R
+
+    def cps(s):
+        return [ord(c) for c in s]
+
+    def seq(s):
+        return [[elem(e) for e in p.path_elements] for p in s.paths]
+
+    def elem(e):
+        t = type(e)
+        if t is R.RRELNavigation:
+            return ["nav", cps(e.name), bool(e.consume_name), None if e.fixed_name is None else cps(e.fixed_name)]
+        if t is R.RRELParent:
+            return ["parent", cps(e.type)]
+        if t is R.RRELDots:
+            return ["dots", e.num]
+        if t is R.RRELBrackets:
+            return ["br", seq(e.seq)]
+        if t is R.RRELZeroOrMore:
+            return ["star", seq(e.path_element.seq)]
+        raise TypeError(t.__name__)
+
+    return {"flags": cps(expr.flags), "seq": seq(expr.seq)}
 
 
 class HeapMismatch(Exception):
@@ -1662,6 +1694,18 @@ class Prop(Check):
         "Rrel.C11_history",
         "Rrel.C11_delim",
         "Rrel.C11_provider",
+        "Rrel.C11_parsed_core",
+        "Rrel.C11_complete_tree",
+        "Rrel.C11_precedence_tree",
+        "Rrel.C11_resolves_tree",
+        "Rrel.C11_expr",
+        "Rrel.C11_anc_spec",
+        "Rrel.C11_anc_order",
+        "Rrel.C11_root_spec",
+        "Rrel.C11_dots_spec",
+        "Rrel.C11_parent_spec",
+        "Rrel.C11_starts_spec",
+        "Rrel.C11_zeros_spec",
     ]
     DRIVER = "Drivers/Rrel.lean"
     QUICK_CASES = 500
@@ -1690,7 +1734,9 @@ class Prop(Check):
                 "parameter of the match rule of the reference at hand, else '.') and histories of calls (Rrel.Provider.call / run, "
                 "driver op session: every provider object is threaded through its calls in textual order); "
                 "tie X: outcome, resolved object and proxy path on the parsed expression tree (node "
-                "identities from the real parser) vs rrel.find, grammar-attached RREL and registered RREL strings; the heap "
+                "identities from the real parser) vs rrel.find, grammar-attached RREL and registered RREL strings; the object tree "
+                "(classes, names, flags) is sent too and the driver checks RrelSyntax.toCore(object tree) = dumped core, node "
+                "identities included, and importURI / use_proxy against the flags; the heap "
                 "description the model gets is cross-checked against the loaded objects; not modelled: prevent_doubles "
                 "(unobservable, see Rrel.lean), navigation into primitive-valued attributes, RRELImportURI model loading, "
                 "local_models of a multi-file repository (only builtin models feed the '+m:' list), textx_isinstance itself "
@@ -1699,7 +1745,10 @@ class Prop(Check):
                 "which textX resolves the references of a model and its retry of Postponed ones (C09)")
     ASSUMPTIONS = [
         "navigated attributes hold objects, lists of objects or None (not primitives); parent chains are acyclic",
-        "node identities of one expression tree are pairwise distinct (Python object identity)",
+        "node identities: proved pairwise distinct for the core of every object tree (RrelSyntax.toCore, C11_*_tree, C11_parsed_core); "
+        "that the real objects of a parsed tree carry exactly these identities is checked per case (driver field core_ok)",
+        "C11_anc_spec / C11_anc_order / C11_root_spec / C11_dots_spec / C11_parent_spec: parent chains are acyclic and Heap.depth is at "
+        "least the number of objects (the driver's heaps: depth = number of objects)",
         "C11_terminates / C11_resolves: the object graph is finite (FinHeap); C11_resolves: no attribute is unresolved",
     ]
     FUEL = 1000000
@@ -1742,6 +1791,8 @@ class Prop(Check):
             return None
         req = {"op": "find", "unres": case.get("unres") or [], "extra": [], "top": obs["tree"]["top"], "o": case["from"],
                "cls": case.get("cls"), "fuel": self.FUEL}
+        if "surface" in obs["tree"]:
+            req.update(surface=obs["tree"]["surface"], m=obs["tree"]["m"], p=obs["tree"]["p"])
         if case.get("as_list") is not None:
             req["ns"] = list(case["as_list"])
         else:  # the model splits the reference text itself
@@ -1769,7 +1820,9 @@ class Prop(Check):
             d.update(unres=[], extra=[])
             heaps.append(d)
         return {"op": "session", "fuel": self.FUEL,
-                "providers": [{"top": obs["trees"][i]["top"], "split": explicit[i], "p": obs["trees"][i]["p"]} for i in insts],
+                "providers": [dict({"top": obs["trees"][i]["top"], "split": explicit[i], "p": obs["trees"][i]["p"]},
+                                   **({"surface": obs["trees"][i]["surface"]} if "surface" in obs["trees"][i] else {}))
+                              for i in insts],
                 "heaps": heaps,
                 "calls": [{"prov": insts.index(c["inst"]), "h": c["m"], "o": c["o"], "text": c["text"],
                            "rule_split": c["rule_split"], "cls": c["cls"]} for c in calls]}
@@ -1777,6 +1830,8 @@ class Prop(Check):
     def multi_compare(self, case, obs, out):
         if "err" in out:
             return f"model did not evaluate the request: {out}"
+        if out.get("core_ok") is False:
+            return "toCore of a provider's object tree differs from the dumped core (alternatives / node identities / use_proxy)"
         calls = [c for c in multi_calls(case) if "inst" in c]
         if len(out.get("results", [])) != len(calls):
             return f"model answered {len(out.get('results', []))} of {len(calls)} references"
@@ -1803,6 +1858,10 @@ class Prop(Check):
             return self.multi_compare(case, obs, out)
         if "err" in out:
             return f"model did not evaluate the request: {out}"
+        if out.get("core_ok") is False:
+            return "toCore of the parsed object tree differs from the dumped core (alternatives / node identities)"
+        if out.get("flags_ok") is False:
+            return "importURI / use_proxy derived from the flags differ between the implementation and the model"
         if obs.get("res") == "error":
             return f"implementation raised {obs.get('type')} ({obs.get('msg')}), model: {out}"
         if obs.get("res") != out.get("res"):
